@@ -166,7 +166,11 @@ func (d *diff) Set(elements ...Element) {
 	for _, e := range elements {
 		hash := xxhash.Sum64([]byte(e.Id))
 		el := &element{Element: e, hash: hash}
-		d.sl.Remove(el)
+		if d.sl.Remove(el) != nil {
+			// an update: take the old entry out of the range counts first, otherwise the
+			// counts (and with them the shape of the range tree) depend on the history
+			d.ranges.removeElement(hash)
+		}
 		d.sl.Set(el, nil)
 		d.ranges.addElement(hash)
 	}
